@@ -82,10 +82,13 @@ Theorem C03_group_hardlink_refuted :
     Some (TNode 0 KGroup [(b "g", TNode 1 KGroup [(b "x", TNode 2 KGroup [])]); (b "h", TNode 1 KGroup [])]).
 Proof. exact group_hardlink_refuted. Qed.
 Print Assumptions C03_group_hardlink_refuted.
-(* target_is_data, sub-case: the target encloses the link; the file cannot be opened at all *)
+(* target_is_data, sub-case: the target encloses the link: listed without children (and, while the
+   reader treated its own-ancestor check as an error - cyc_cfg - the file could not be opened at all) *)
 Theorem C03_ancestor_link_refuted :
   all_ok (snd (go h_ancestor_link)) = true /\ all_ok (snd (sp h_ancestor_link)) = true /\
-  read_tree go_cfg (fst (go h_ancestor_link)) = None.
+  read_tree cyc_cfg (fst (run (step cyc_cfg) (init cyc_cfg) h_ancestor_link)) = None /\
+  read_tree go_cfg (fst (go h_ancestor_link)) =
+    Some (TNode 0 KGroup [(b "g", TNode 1 KGroup [(b "h", TNode 2 KGroup [(b "up", TNode 1 KGroup [])])])]).
 Proof. exact ancestor_link_refuted. Qed.
 Print Assumptions C03_ancestor_link_refuted.
 Theorem C03_alias_parent_refuted :
